@@ -76,63 +76,67 @@ func runC09(c *Ctx) {
 		if a.Kind != "mapwrite" {
 			continue
 		}
-		nCW++
-		fn := a.Fn
-		c.Saw(fn)
-		f := w.Facts(fn)
-		mu := a.Instr.(*ssa.MapUpdate)
-		b := mu.Block()
-		key := shortFn(fn)
-		// mode on: field load true, or (constructor) the mode parameter true
-		modeOn := f.Any(b, func(l Lit) bool {
-			if m.isLoadOfField(l.V, m.fNoUp) {
-				return l.Pol
-			}
-			if p, ok := l.V.(*ssa.Parameter); ok && fn == ctorFn && l.Pol {
-				// it is the parameter stored into the mode field
-				for _, acc := range w.FieldAccesses(m.Server, m.fNoUp) {
-					if st, ok := acc.Instr.(*ssa.Store); ok && acc.Fn == fn && st.Val == ssa.Value(p) {
-						return true
+		// a write made in a helper is examined once per operation (entry function) through which the helper is reached,
+		// in that operation's frame: the helper's parameters are then the operation's values and the must-facts at
+		// the operation's call site hold
+		for _, fn := range w.entriesOf(a.Fn, ctorFn, ctor) {
+			nCW++
+			c.Saw(fn)
+			f := w.Facts(fn)
+			mu := a.Instr.(*ssa.MapUpdate)
+			b := mu.Block()
+			key := shortFn(fn)
+			// mode on: field load true, or (constructor) the mode parameter true
+			modeOn := f.Any(b, func(l Lit) bool {
+				if m.isLoadOfField(l.V, m.fNoUp) {
+					return l.Pol
+				}
+				if p, ok := w.canon(fn, l.V).(*ssa.Parameter); ok && fn == ctorFn && l.Pol {
+					// it is the parameter stored into the mode field
+					for _, acc := range w.FieldAccesses(m.Server, m.fNoUp) {
+						if st, ok := acc.Instr.(*ssa.Store); ok && acc.Fn == fn && st.Val == ssa.Value(p) {
+							return true
+						}
+					}
+				}
+				return false
+			})
+			c.Check(modeOn, "R1.cachewrites", key+"|cache written only in no-upstream mode", w.Pos(mu.Pos()), "must-fact: mode on", "the hidden-certificate cache can be filled with the mode off: certificates would be hidden although nothing should be")
+			// the key: hash(cert.Marshal()) with cert = result 0 of the cast
+			var cast *ssa.Call
+			hk := w.Expr(mu.Key)
+			for _, call := range w.callsInDeep(fn) {
+				if cv, ok := call.(*ssa.Call); ok && strings.HasSuffix(calleeName(cv), "sshutils/key.CastSSHPublicKeyToCertificate") {
+					if ex := extractOf(cv, 0); ex != nil && strings.Contains(hk, "Certificate).Marshal>("+w.Expr(ex)+")") {
+						cast = cv
 					}
 				}
 			}
-			return false
-		})
-		c.Check(modeOn, "R1.cachewrites", key+"|cache written only in no-upstream mode", w.Pos(mu.Pos()), "must-fact: mode on", "the hidden-certificate cache can be filled with the mode off: certificates would be hidden although nothing should be")
-		// the key: hash(cert.Marshal()) with cert = result 0 of the cast
-		var cast *ssa.Call
-		hk := w.Expr(mu.Key)
-		for _, call := range callsIn(fn) {
-			if cv, ok := call.(*ssa.Call); ok && strings.HasSuffix(calleeName(cv), "sshutils/key.CastSSHPublicKeyToCertificate") {
-				if ex := extractOf(cv, 0); ex != nil && strings.Contains(hk, "Certificate).Marshal>("+w.Expr(ex)+")") {
-					cast = cv
+			if cast == nil {
+				c.Bad("R1.cachewrites", key+"|cache key is the hash of a cast certificate", w.Pos(mu.Pos()), "the cache key is not hash(cert.Marshal()) of a certificate obtained from the cast: "+w.Short(mu.Key))
+				continue
+			}
+			certV := extractOf(cast, 0)
+			isNil, known := f.KnownNil(b, extractOf(cast, 1))
+			c.Check(known && isNil, "R1.cachewrites", key+"|only certificates are cached", w.Pos(mu.Pos()), "must-fact: cast err == nil", "a cache entry can be written although the cast to a certificate failed")
+			okKid := f.Any(b, func(l Lit) bool {
+				y, isNil, ok := nilTest(l)
+				if !ok || !isNil {
+					return false
 				}
-			}
+				ex, isEx := strip(y).(*ssa.Extract)
+				if !isEx {
+					return false
+				}
+				cv, isCall := ex.Tuple.(*ssa.Call)
+				if !isCall || !strings.HasSuffix(calleeName(cv), "keyid.Unmarshal") {
+					return false
+				}
+				// argument is certV.KeyId
+				return w.Expr(cv.Call.Args[0]) == w.Expr(certV)+".KeyId"
+			})
+			c.Check(okKid, "R1.cachewrites", key+"|only YSSHCA certificates are hidden", w.Pos(mu.Pos()), "must-fact: keyid.Unmarshal(cert.KeyId) == nil for the cached certificate", "a certificate can be cached (hidden) without the must-fact that ITS KeyID decodes as a YSSHCA KeyID")
 		}
-		if cast == nil {
-			c.Bad("R1.cachewrites", key+"|cache key is the hash of a cast certificate", w.Pos(mu.Pos()), "the cache key is not hash(cert.Marshal()) of a certificate obtained from the cast: "+w.Short(mu.Key))
-			continue
-		}
-		certV := extractOf(cast, 0)
-		isNil, known := f.KnownNil(b, extractOf(cast, 1))
-		c.Check(known && isNil, "R1.cachewrites", key+"|only certificates are cached", w.Pos(mu.Pos()), "must-fact: cast err == nil", "a cache entry can be written although the cast to a certificate failed")
-		okKid := f.Any(b, func(l Lit) bool {
-			y, isNil, ok := nilTest(l)
-			if !ok || !isNil {
-				return false
-			}
-			ex, isEx := strip(y).(*ssa.Extract)
-			if !isEx {
-				return false
-			}
-			cv, isCall := ex.Tuple.(*ssa.Call)
-			if !isCall || !strings.HasSuffix(calleeName(cv), "keyid.Unmarshal") {
-				return false
-			}
-			// argument is certV.KeyId
-			return w.Expr(cv.Call.Args[0]) == w.Expr(certV)+".KeyId"
-		})
-		c.Check(okKid, "R1.cachewrites", key+"|only YSSHCA certificates are hidden", w.Pos(mu.Pos()), "must-fact: keyid.Unmarshal(cert.KeyId) == nil for the cached certificate", "a certificate can be cached (hidden) without the must-fact that ITS KeyID decodes as a YSSHCA KeyID")
 	}
 	c.Floor("R1.cachewrites", nCW, 3, "writes to the hidden-certificate cache")
 
